@@ -1193,5 +1193,5 @@ def run(ctx: Ctx, rep: Report, tier: str) -> None:
 
 
 # what the later rounds (seeding rounds 2-5, refactor twins, defect hunt) added to what the check decides
-LATER_ROUNDS = "rebuilt blocks keep uuid, note, number and receive the ACL's version, block identity is filed under a unique key, every exported class with copy() has an equality, adopted entries get the same settings from both rule-list builders, the port split keeps block objects, memos are reset by every writer"
+LATER_ROUNDS = "rebuilt blocks keep uuid, note, number and receive the ACL's version, block identity is filed under a unique key, every exported class with copy() has an equality, adopted entries get the same settings from both rule-list builders, the port split keeps block objects, memos are reset by every writer, members handed over as dictionaries are stamped like ready-made members"
 EXPLANATION = EXPLANATION.replace(" Does not decide", " Later rounds added: " + LATER_ROUNDS + ". Does not decide", 1) if " Does not decide" in EXPLANATION else EXPLANATION + " Later rounds added: " + LATER_ROUNDS + "."
